@@ -14,6 +14,7 @@ import (
 	"encoding/json"
 	"fmt"
 	"math"
+	"os"
 	"reflect"
 	"sort"
 	"strconv"
@@ -285,9 +286,10 @@ func check(c Case) *core.Violation {
 		return core.Violf("unclean-failure", "json -> format %s on %s: exit %d err=%v with no message\nstdout=%q", c.Target, c.Doc, r1.Exit, r1.Err, r1.Stdout)
 	}
 	// stage 2: target -> json
-	if c.Target == "csv" && core.IsKnownOpen(emptyTableHang) {
+	if c.Target == "csv" && core.IsKnownOpen(emptyTableHang) && os.Getenv("VERIF_REPLAY") == "" {
 		// while that finding is open a csv text without any line left is not
-		// fed to `format json`: it would park the run for the hang budget
+		// fed to `format json` during the search (a replay does feed it): it
+		// would park the run for the hang budget every time
 		if _, kept, messy, changed := csvLineSim(want, true, true); changed && kept == 0 && !messy {
 			core.ExcludedKnown(emptyTableHang)
 			return nil
